@@ -533,6 +533,13 @@ Proof.
   - apply IH; rewrite skipn_length; lia.
 Qed.
 
+Lemma uniform_Forall2 {B} (R : cs -> B -> Prop) (Q : B -> Prop) : forall (g : list cs) (l : list B),
+  length l = length g -> Forall Q l -> Forall (fun c => forall b, Q b -> R c b) g -> Forall2 R g l.
+Proof.
+  induction g as [|c g IH]; intros [|b l] L FQ FR; simpl in L; try lia; [constructor|].
+  inversion FQ; subst. inversion FR; subst. constructor; [auto | apply IH; [lia | assumption | assumption]].
+Qed.
+
 Lemma good_sizes : forall gs sz, Forall good_group gs -> group_sizes gs = Ok sz ->
   zsum sz = zsum (map c_nl (concat gs)) /\ 0 <= zsum sz.
 Proof.
@@ -554,7 +561,9 @@ Lemma children_level : forall gs rank labels cls clrs N,
   num_list_of_group_labellings gs = Ok N -> 0 <= rank < N ->
   clr_loop (relabel_groups gs cls clrs) labels = Ok rank /\
   length cls = length (concat gs) /\ length clrs = length (concat gs) /\
-  Forall zsorted cls /\ Permutation (concat cls) labels.
+  Forall zsorted cls /\ Permutation (concat cls) labels /\
+  Forall2 (fun c tl => Z.of_nat (length tl) = c_nl c) (concat gs) cls /\
+  Forall2 (fun c tr => 0 <= tr < c_nlab c) (concat gs) clrs.
 Proof.
   induction gs as [|g rest IH]; intros rank labels cls clrs N G Hs Hlen H HN Hr.
   - cbn [children_label_ranks] in H. injection H as <- <-. vm_compute in HN. injection HN as <-.
@@ -611,12 +620,12 @@ Proof.
     { unfold num_group_labellings in Hngl. unfold g in Hngl at 1. fold g in Hngl.
       unfold num_assignments_in_group in Hngl. rewrite (uniform_sum k y g U), Ey in Hngl. congruence. }
     destruct (group_level g (rank mod (ngl * nrl) / nrl) gl tls trs 0 (zlength g) k y U Hk Hy Sg)
-      as [GL1 [GL2 [GL3 [GL4 [GL5 _]]]]]; [lia | lia | exact Hgrp | rewrite <- Engl; exact Hgr |].
+      as [GL1 [GL2 [GL3 [GL4 [GL5 [GL6 GL7]]]]]]; [lia | lia | exact Hgrp | rewrite <- Engl; exact Hgr |].
     (* the remaining groups *)
     assert (Subl: forall x, In x gl -> In x labels) by (intros x; apply subseq_In; exact Sub).
     pose proof (set_minus_length labels gl (zsorted_NoDup _ Hs) (zsorted_NoDup _ Sg) Subl) as Lsm.
     destruct (IH (rank mod nrl) (set_minus labels gl) cls' clrs' nrl G')
-      as [I1 [I2 [I3 [I4 I5]]]];
+      as [I1 [I2 [I3 [I4 [I5 [I6 I7]]]]]];
       [apply set_minus_sorted; exact Hs | lia | exact Hrest | exact Hnrl' | apply Z.mod_pos_bound; lia |].
     (* assemble *)
     assert (Ef1: firstn (length g) (tls ++ cls') = tls) by (rewrite <- GL4; apply firstn_app_len).
@@ -624,7 +633,7 @@ Proof.
     assert (Es1: skipn (length g) (tls ++ cls') = cls') by (rewrite <- GL4; apply skipn_app_len).
     assert (Es2: skipn (length g) (trs ++ clrs') = clrs') by (rewrite <- GL5; apply skipn_app_len).
     destruct (relabel_fields g tls trs GL4 GL5) as [F1 [F2 [F3 [F4 _]]]].
-    split; [|split; [|split; [|split]]].
+    split; [|split; [|split; [|split; [|split; [|split]]]]].
     + cbn [relabel_groups]. rewrite Ef1, Ef2, Es1, Es2.
       set (g2 := relabel g tls trs) in *.
       assert (SC: same_counts g g2) by (split; symmetry; assumption).
@@ -649,4 +658,10 @@ Proof.
     + apply Forall_app. split; assumption.
     + rewrite concat_app. rewrite GL3, I5. symmetry.
       apply set_minus_perm; [apply zsorted_NoDup; exact Hs | apply zsorted_NoDup; exact Sg | exact Subl].
+    + cbn [concat]. apply Forall2_app; [|exact I6].
+      apply (uniform_Forall2 (fun c tl => Z.of_nat (length tl) = c_nl c) (fun tl => Z.of_nat (length tl) = k) g tls);
+        [exact GL4 | exact GL6 |]. eapply Forall_impl; [|exact U]. intros c [E _] tl Htl. congruence.
+    + cbn [concat]. apply Forall2_app; [|exact I7].
+      apply (uniform_Forall2 (fun c tr => 0 <= tr < c_nlab c) (fun tr => 0 <= tr < y) g trs);
+        [exact GL5 | exact GL7 |]. eapply Forall_impl; [|exact U]. intros c [_ E] tr Htr. rewrite E. exact Htr.
 Qed.
